@@ -1,0 +1,5 @@
+//go:build !verif
+
+package autofile
+
+func verifSynced(af *AutoFile) {}
